@@ -64,7 +64,7 @@ class Ctx:
 
     # ---------------------------------------------------------------- flattened views
     # Role anchors that rules name explicitly: never inlined, so that a rule can still point at the call.
-    ANCHORS = re.compile(r"::(ack|validate_packet_size|handle_connack|session_expired|is_reconnect|retransmit|reset_session|"
+    ANCHORS = re.compile(r"::(ack|validate_packet_size|handle_connack|session_expired|is_reconnect|reset_session|"
                          r"linear_search_by_key|tx_action_id|rx_action_id|next_packet_id|handle_packet|handle_message|set_up|new)$")
 
     @staticmethod
@@ -113,6 +113,38 @@ class Ctx:
     def run_body(self):
         return self.flat(self.coroutine(r"client::context::Context::<[^>]*>::run"))
 
+    def client_units(self):
+        """[(role, body)] covering the code of the client layer exactly once: the two handlers, run, connect,
+        authorize and the handle operations in flattened form; every other function as it is written, unless it
+        was inlined into one of those (then its code is looked at where it takes effect). Closures are reached
+        from the body that creates them."""
+        if getattr(self, "_units", None) is not None:
+            return self._units
+        units = [("inbound", self.inbound_handler()), ("outbound", self.outbound_handler()), ("run", self.run_body())]
+        for nm in ("connect", "authorize"):
+            try:
+                units.append((nm, self.flat(self.coroutine(r"client::context::Context::<[^>]*>::" + nm))))
+            except AnchorLost:
+                pass
+        for nm, b in self.handle_ops().items():
+            units.append((nm, b))
+        covered = set()
+        for _, b in units:
+            covered.add(b.path)
+            covered |= set(b.fn.get("inlined", []))
+        # the `async fn` shells of covered coroutines
+        covered |= {p[:-len("::{closure#0}")] for p in list(covered) if p.endswith("::{closure#0}")}
+        for f in self.facts.fns:
+            p = f["path"]
+            if self.layer(p) != "client" or f["kind"] == "closure" or p in covered:
+                continue
+            if "::test" in p or "::tests::" in p:
+                continue
+            role = p.split("::")[-1] if not p.endswith("}") else p.split("::")[-2]
+            units.append((role, self.world.body(p)))
+        self._units = units
+        return units
+
     def handle_ops(self):
         out = {}
         for name in ("disconnect", "ping", "publish", "subscribe", "unsubscribe"):
@@ -144,17 +176,50 @@ def match_arms(body, adt_path, root_only=True):
 
 
 def arm_region(body, entry):
-    return {b for b in body.reach if body.dominates(entry, b)}
+    """Blocks that belong to the arm entered at `entry`: everything reachable from it before the point where the
+    arms of its `match` / `if` join again (the immediate post-dominator of the branching block). Two patterns joined
+    with `|` (each with its own binding block) share their body: it belongs to both."""
+    cache = body.__dict__.setdefault("_arm_regions", {})
+    if entry in cache:
+        return cache[entry]
+    branch = None
+    for p in body.pred(entry):
+        if len(body.succ(p)) > 1:
+            branch = p
+    if branch is None:
+        # entry reached through a chain of single-successor blocks (falseedge, binding block): walk up
+        cur = entry
+        for _ in range(6):
+            ps = body.pred(cur)
+            if len(ps) != 1:
+                break
+            if len(body.succ(ps[0])) > 1:
+                branch = ps[0]
+                break
+            cur = ps[0]
+    join = body.ipdom.get(branch) if branch is not None else None
+    avoid = {join} if join is not None and join >= 0 else set()
+    reg = body.reachable_from(entry, avoid=avoid)
+    if branch is not None and branch in reg and not body.dominates(entry, branch):
+        # the match sits in a loop: do not run around the loop into the other arms
+        reg = body.reachable_from(entry, avoid=avoid | {branch})
+    cache[entry] = reg
+    return reg
 
 
 def arm_of(body, arms, otherwise, bb):
-    """Name of the arm (variant or 'otherwise') whose entry dominates bb."""
-    for v, e in arms.items():
-        if body.dominates(e, bb):
-            return v
+    """Name of the arm bb belongs to. For a body shared by several `|`-joined patterns: 'A|B'."""
+    dom = [v for v, e in arms.items() if body.dominates(e, bb)]
+    if dom:
+        # innermost entry; variants that share it (`A | B` without separate binding blocks) are named together
+        inner = max(dom, key=lambda v: len([x for x in dom if body.dominates(arms[x], arms[v])]))
+        return "|".join(sorted(v for v in dom if arms[v] == arms[inner]))
     if otherwise is not None and body.dominates(otherwise, bb):
         # `otherwise` may be an `unreachable` block
         return "otherwise"
+    inside = sorted(v for v, e in arms.items() if bb in arm_region(body, e))
+    if inside and len(inside) < len(arms):
+        return "|".join(inside)
     return None
 
 
